@@ -423,7 +423,7 @@ def run(ctx):
         '{plain, empty}, with / without leading and trailing slash x minsegs 1..4 x maxsegs {None, 0, min-1..min+2} x '
         'rest_with_last, two concrete renderings each; split_by_commas: item lists of length 1..5 (all items up to '
         'length 3 over 8 character classes alone, up to length 2 in pairs, pools of 8 / 5 / 4 items in triples to '
-        'quintuples) written quoted-where-needed and always-quoted, every text up to length %d over '
+        'quintuples) written quoted-where-needed and always-quoted, twelve (thorough: 120) joined lists of 150..700 items, every text up to length %d over '
         '{letter , " \\ space}, and 8 malformed-quoting patterns at every position of lists of 1..3 items; '
         'distinct_nontrivial = inputs accepted' % ((4, 5, 6) if quick else (5, 6, 7)))
     ctx.cov['exhaustive'] = True
